@@ -5,7 +5,9 @@ import (
 	"fmt"
 	"math"
 	"math/big"
+	"os"
 	"sort"
+	"strconv"
 	"strings"
 	"sync"
 
@@ -76,7 +78,10 @@ func cellAt(face, level int, a, b int64) s2.CellID {
 // cube corners and coarse cell boundaries at every level).
 func genCell(t *rapid.T, label string) s2.CellID {
 	face := rapid.IntRange(0, 5).Draw(t, label+".f")
-	level := rapid.IntRange(0, 30).Draw(t, label+".l")
+	level := rapid.IntRange(0, 30).Draw(t, label+".l") // biased towards coarse levels
+	if rapid.IntRange(0, 3).Draw(t, label+".lu") != 0 {
+		level = int(uni(t, label+".lv") % 31) // uniform over levels
+	}
 	switch rapid.IntRange(0, 5).Draw(t, label+".src") {
 	case 0:
 		return gen.CellID(t, label)
@@ -87,7 +92,7 @@ func genCell(t *rapid.T, label string) s2.CellID {
 	n := int64(1) << uint(level)
 	coord := func(l string) int64 {
 		var v int64
-		switch rapid.IntRange(0, 5).Draw(t, l+".m") {
+		switch rapid.IntRange(0, 7).Draw(t, l+".m") {
 		case 0:
 			v = 0
 		case 1:
@@ -374,7 +379,9 @@ func checkPoint(c ptCase) ev.Outcome {
 			if e1.Sign() == 0 && !got {
 				return failO(o, "contains-false-negative", "p=%v is exactly inside BoundUV of cell %v but ContainsPoint is false", c.P, x)
 			}
-			if e1.Cmp(rat2eps) > 0 && got {
+			// 8·eps: four times today's margin plus rounding, so that a repair that
+			// widens ContainsPoint's margin does not turn this into a false alarm.
+			if e1.Cmp(rat8eps) > 0 && got {
 				f, _ := e1.Float64()
 				return failO(o, "contains-false-positive", "p=%v is %.3g·eps outside BoundUV of cell %v but ContainsPoint is true", c.P, f/eps, x)
 			}
@@ -1170,8 +1177,24 @@ func maxExhaustiveLevel() int {
 }
 
 func genBlock(t *rapid.T) blockCase {
-	k := int(uni(t, "block") % uint64(6*(maxExhaustiveLevel()+1)))
+	// The driver's shards split the blocks among themselves (block ≡ shard mod
+	// shards) so that no block is enumerated twice and every block is certain to
+	// be drawn; which block of its share a shard takes next is a rapid draw.
+	nb := 6 * (maxExhaustiveLevel() + 1)
+	shards, shard := envInt("VERIF_SHARDS", 1), envInt("VERIF_SHARD", 0)
+	if shards < 1 || shards > nb || shard < 0 || shard >= shards {
+		shards, shard = 1, 0
+	}
+	cnt := (nb - shard + shards - 1) / shards // blocks shard, shard+shards, … < nb
+	k := shard + shards*int(uni(t, "block")%uint64(cnt))
 	return blockCase{Face: k % 6, Level: k / 6}
+}
+
+func envInt(k string, d int) int {
+	if v, err := strconv.Atoi(os.Getenv(k)); err == nil {
+		return v
+	}
+	return d
 }
 
 var blockDone sync.Map // blockCase -> ids enumerated (passing blocks only)
@@ -1299,7 +1322,21 @@ func checkLL(c llCase) ev.Outcome {
 		return fail("latlng-entry-points", "CellIDFromLatLng, CellFromLatLng and CellFromPoint(PointFromLatLng) disagree for %v", ll)
 	}
 	if !cell.ContainsPoint(p) {
-		return fail("leaf-not-containing", "CellFromLatLng(%v) does not contain PointFromLatLng", ll)
+		// same narrow classification as in point_to_leaf_and_ancestors
+		finding := "leaf-not-containing"
+		exf := -1.0
+		if pu, pv, pw := toUVW(cell.Face(), [3]float64{p.X, p.Y, p.Z}); pw > 0 {
+			b := cell.BoundUV()
+			ex := excess(exactRatio(pu, pw), b.X.Lo, b.X.Hi)
+			if e2 := excess(exactRatio(pv, pw), b.Y.Lo, b.Y.Hi); e2.Cmp(ex) > 0 {
+				ex = e2
+			}
+			exf, _ = ex.Float64()
+			if ex.Cmp(ratOf(0.75*eps)) > 0 && ex.Cmp(rat2eps) <= 0 {
+				finding = "contains-margin-below-roundoff"
+			}
+		}
+		return fail(finding, "CellFromLatLng(%v) does not contain PointFromLatLng(%v) (exact (u,v) is %.3g·eps outside its BoundUV)", ll, ll, exf/eps)
 	}
 	ang := float64(p.Angle(id.Point().Vector))
 	o.Ratios = map[string]float64{"angle_to_leaf_centre/leaf_max_diag": ang / (2.438654594434021 * 0x1p-30)}
@@ -1336,24 +1373,24 @@ func checkLL(c llCase) ev.Outcome {
 
 func init() {
 	ev.Define("point_to_leaf_and_ancestors", ev.Options{
-		Rule:  "unit points: 1/2 'snapped' (minor coordinates re-set to fl(boundary·major) ±0..8 ulps for boundary values of cells of every level incl. face edges, cube corners, u=0), rest uniform/cube-symmetric/exponent-spread/plane/cell-derived ±4 ulps. Oracle: exact rational (u,v)=(y/x,…) against the leaf's BoundUV (bound 2·eps outside, stated before running), independent lattice cell via integer square roots of the exact inverse quadratic transform, bit model of Parent, lattice nesting of all 31 ancestors, ContainsPoint at all 31 levels, two-sided ContainsPoint of an edge-neighbour/arbitrary cell against exact membership. Non-trivial = exact u or v within 4·2^-52 of a boundary of the leaf cell.",
-		Quick: 160000, Thorough: 5000000}, genPtCase, checkPoint)
+		Rule:  "unit points: 1/2 'snapped' (minor coordinates re-set to fl(boundary·major) ±0..8 ulps for boundary values of cells of every level incl. face edges, cube corners, u=0), rest uniform/cube-symmetric/exponent-spread/plane/cell-derived ±4 ulps. Oracle: exact rational (u,v)=(y/x,…) against the leaf's BoundUV (bound 2·eps outside, stated before running), independent lattice cell via integer square roots of the exact inverse quadratic transform, bit model of Parent, lattice nesting of all 31 ancestors, ContainsPoint at all 31 levels, two-sided ContainsPoint of an edge-neighbour/arbitrary cell against exact membership (exactly inside -> true, more than 8·eps outside or wrong hemisphere -> false). Non-trivial = exact u or v within 4·2^-52 of a boundary of the leaf cell.",
+		Quick: 400000, Thorough: 24000000}, genPtCase, checkPoint)
 	ev.Define("id_algebra", ev.Options{
 		Rule:  "valid ids of all levels (uniform, path-biased, lattice-biased to face edges/corners) with a related second id (ancestor, descendant, range ends, curve neighbours, same-prefix) and step counts (small, ±k·N±r, to/past both ends, int64 extremes). Oracle: curve-index model (cell = k-th of its level; id=(2k+1)·4^(30-l)), big-integer Advance/AdvanceWrap, leaf-interval Contains/Intersects, brute-force CommonAncestorLevel and MaxTile by its documented definition plus the documented tiling loop. All cases count as non-trivial; class = level and relation.",
-		Quick: 120000, Thorough: 4000000}, genIDCase, checkID)
+		Quick: 300000, Thorough: 12000000}, genIDCase, checkID)
 	ev.Define("token_string", ev.Options{
 		Rule:  "arbitrary uint64 (valid ids, 0, ^0, face 6/7, lsb on odd bit, one flipped bit, random) and texts (tokens/strings of them truncated, zero-padded to >16, upper-cased, with inserted/replaced bad characters incl. NUL and non-ASCII, leading zeros, random hex and digit strings). Oracle: separately written formatter/parsers (hex right-padded with zeros; malformed -> 0). Non-trivial = malformed text or a token that is not the canonical one.",
-		Quick: 120000, Thorough: 3000000}, genTokCase, checkTok)
+		Quick: 200000, Thorough: 6000000}, genTokCase, checkTok)
 	ev.Define("hierarchy_on_lattice", ev.Options{
 		Rule:  "one valid id of any level; its lattice square is read from BoundUV by bit-exact match with the published transform. Integer facts: parent square = containing quadrant, four children = four distinct quadrants with consecutive ones sharing a side, next cell along the curve (NextWrap, incl. 5 face transitions and the wrap) shares a full side on the cube surface, centre point maps back to the cell and lies on the centre lattice line exactly, IJ/UV edge coordinates and sizes, Cell.Children == CellFromCellID(child) bit for bit. Non-trivial = cell on a face edge / cube corner or the curve step leaves the parent's quadrant or the face.",
-		Quick: 120000, Thorough: 4000000}, genCellCase, checkHierarchy)
+		Quick: 300000, Thorough: 12000000}, genCellCase, checkHierarchy)
 	ev.Define("neighbors", ev.Options{
 		Rule:  "one valid id of any level (1/3 uniform/path-biased, 2/3 lattice-biased to face edges and cube corners), AllNeighbors level +0..+3 (1/10: +4..+6), VertexNeighbors level < cell level. Oracle: integer cube-surface model — the set of all squares of the requested level whose closed square meets the cell's closed square (or the closest ancestor vertex), enumerated over all six faces; reported set must equal it (sound and complete), ids valid, of the requested level, leaf-interval disjoint; EdgeNeighbors[k] must contain side k and be 4 distinct cells; Cell.Vertex of cells sharing a lattice corner bit-identical. Non-trivial = the cell touches a face edge or cube corner (wrap path).",
-		Quick: 100000, Thorough: 3000000}, genNbrCase, checkNeighbors)
+		Quick: 250000, Thorough: 12000000}, genNbrCase, checkNeighbors)
 	ev.Define("exhaustive_face_level", ev.Options{
 		Rule:  "Case = (face, level), level 0..7 quick / 0..9 thorough; Check enumerates EVERY id of that face and level: id -> square is injective onto the 4^level squares of the face (hence bijective), parent quadrant, curve continuity to the next id (last id of a face steps to the next face), centre round trip, token/string round trip, EdgeNeighbors, AllNeighbors at +0..+3 and VertexNeighbors at -1..-3 against the cube-surface model, shared vertices bit-identical. Counts 'visits.fF.LL' show which blocks were drawn (complete enumeration only if all are > 0); results of passing blocks are cached per process.",
-		Quick: 1600, Thorough: 4800}, genBlock, checkBlock)
+		Quick: 1600, Thorough: 3200}, genBlock, checkBlock)
 	ev.Define("latlng_entry_points", ev.Options{
 		Rule:  "valid LatLngs (poles, antimeridian, special angles, uniform, E7-rounded, lat/lng of boundary-snapped points) and a valid id. CellIDFromLatLng/CellFromLatLng/CellFromPoint∘PointFromLatLng agree, the leaf contains the point and its centre is within one leaf diagonal; id.LatLng() is valid, maps back into the cell and is within 1e-14 rad (a priori bound, DESIGN 2.5) of id.Point().",
-		Quick: 60000, Thorough: 1500000}, genLL, checkLL)
+		Quick: 100000, Thorough: 3000000}, genLL, checkLL)
 }
